@@ -36,6 +36,7 @@ def setup(rep, tier):
     rep.minimum('R19.5', 1)
     rep.minimum('R19.6', 1)
     rep.minimum('R19.7', 1)
+    rep.minimum('R19.8', 1)
 
 
 def r19_12(rep, prog):
@@ -450,6 +451,8 @@ def _subkeys(k):
 
 
 def check(rep, prog, tier):
+    from . import softclipmem
+    softclipmem.check(rep, prog, 'R19.8', 'memory')
     r19_5(rep, prog)
     r19_67(rep, prog)
     r19_12(rep, prog)
